@@ -37,7 +37,12 @@ def run(rep, tier):
     if br:
         common.guarded(rep, "C03.3", c03.c03_3, rep, ix, M, cc, br)
         common.guarded(rep, "C03.8", c03.c03_8, rep, ix, M, cc, br)
+        common.guarded(rep, "C03.9", c03.c03_9, rep, ix, M, cc, br)
     common.guarded(rep, "C03.4", c03.c03_4, rep, ix, M)
+    # a statement in a loop body is evaluated anew in every iteration: its transforms are built from that iteration's values
+    from . import c06
+    common.guarded(rep, "C06.1", c06.c06_1, rep, ix, M.G)
+    common.guarded(rep, "C06.2", c06.c06_2, rep, ix)
 
 
 def c08_1(rep, ix, G):
